@@ -11,9 +11,9 @@ C07 — the property text transcribed as a decidable oracle over OBSERVATIONS (c
 The oracle never looks at the model's control flow: it reads the configuration (the option list),
 keeps its own per-child history of fault times, decides what the text says must happen
 (`expect`), and checks the observation before/after the op (`check`).  `Variant.text` is the
-property as written; `Variant.code` differs in exactly the two places where the current code does
-something else (see Props/C07.lean): who receives the escalated failure, and the restart count of
-a sibling that was running when its group was restarted.
+property as written; `Variant.code` differs in exactly the place where the current code does
+something else (see Props/C07.lean): who receives the escalated failure.  (A second deviation, the
+restart count of a sibling restarted while running, was repaired by fix 6e40710.)
 -/
 import GoaktVerif.Model.C07
 
@@ -115,9 +115,7 @@ def checkChild (v : Variant) (e : Expect) (isFaulty inGrp : Bool) (b a : CObs) :
   | .restart =>
       a.alive && a.reg && !a.susp && a.pre == b.pre + 1 && a.handled == 0
       && a.post == b.post + (if !isFaulty && b.alive then 1 else 0)
-      && a.rc == (match v with
-                  | .text => b.rc + 1
-                  | .code => if !isFaulty && b.alive then 1 else b.rc + 1)
+      && a.rc == b.rc + 1
   | .exhausted =>
       !a.alive && a.reg == b.reg && a.pre == b.pre && a.post == b.post && a.handled == b.handled && a.rc == b.rc
       && (if isFaulty || b.alive then a.susp else a.susp == b.susp)
@@ -191,19 +189,12 @@ def judgeRunWith (js : Hists → Int → Op → Obs → Obs → Res → Bool × 
 def judgeRun (v : Variant) (opts : List Opt) : Hists → Int → List Op → Obs → List (Obs × Res) → Bool :=
   judgeRunWith (judgeStep v opts)
 
-/-- the decidable guard of the partial theorem, per step: the configured directive is not Escalate,
-    and when the step restarts a group no sibling that is running has been restarted before -/
+/-- the decidable guard of the partial theorem, per step: the configured directive is not Escalate -/
 def stepGuard (opts : List Opt) (h : Hists) (now : Int) (op : Op) (b : Obs) : Bool :=
   match op with
   | .fail i k =>
     match (expect opts h now b i k).1 with
     | .escalate => false
-    | .restart =>
-      (List.range b.cs.length).all (fun j =>
-        j == i || !(group (newSupervisor opts).strategy b i j) ||
-        (match b.cs[j]? with
-         | some bj => !bj.alive || bj.rc == 0
-         | none => true))
     | _ => true
   | _ => true
 
